@@ -11,8 +11,9 @@ import ast
 
 from ..core import rule
 from ..engine import cfg as cfgmod, flow
+from ..engine import pattern as P
 from ..engine.facts import dotted, const, src, walk_func, enclosing_stmt, ancestors
-from .common import calls, stmt_nodes, norm_successors, contains
+from .common import calls, stmt_nodes, norm_successors, contains, pn, access_paths
 
 MOVES = ("shutil.move", "os.replace", "os.rename")
 
